@@ -2,8 +2,12 @@
 //! knows how to execute itself on the simulator and judge the resulting
 //! history.
 
+pub mod c17plan;
+pub mod crashcase;
 pub mod hexcase;
 pub mod iogen;
+pub mod newcase;
+pub mod newplans;
 
 use crate::exec::{Ctx, HarnessError};
 use crate::framework::RunReport;
@@ -13,20 +17,25 @@ use std::path::Path;
 #[derive(Clone, Debug, Serialize, Deserialize)]
 pub enum AnyCase {
     Hex(hexcase::HexCase),
+    New(newcase::NewCase),
+    Crash(crashcase::CrashCase),
 }
 
 impl AnyCase {
     pub fn run(&self, ctx: &Ctx, dir: &Path) -> Result<RunReport, HarnessError> {
         match self {
             AnyCase::Hex(c) => c.run(ctx, dir),
+            AnyCase::New(c) => c.run(ctx, dir),
+            AnyCase::Crash(c) => c.run(ctx, dir),
         }
     }
 
     /// The same case with every simulator decision spelled out (recorded
     /// schedule instead of a scheduler seed), if it is not explicit already.
-    pub fn explicit(&self, _report: &RunReport) -> Option<AnyCase> {
+    pub fn explicit(&self, report: &RunReport) -> Option<AnyCase> {
         match self {
-            AnyCase::Hex(_) => None,
+            AnyCase::Hex(_) | AnyCase::Crash(_) => None,
+            AnyCase::New(c) => c.explicit(report).map(AnyCase::New),
         }
     }
 
@@ -34,6 +43,8 @@ impl AnyCase {
     pub fn shrink_candidates(&self) -> Vec<AnyCase> {
         match self {
             AnyCase::Hex(c) => c.shrink_candidates().into_iter().map(AnyCase::Hex).collect(),
+            AnyCase::New(c) => c.shrink_candidates().into_iter().map(AnyCase::New).collect(),
+            AnyCase::Crash(c) => c.shrink_candidates().into_iter().map(AnyCase::Crash).collect(),
         }
     }
 }
